@@ -65,10 +65,67 @@ def payload_branch(eff, term_pred):
     return [(v, t) for v, t in branches_of(eff) if term_pred(v)]
 
 
+def item_cases(eff):
+    """the characters taken from the iterator along a path, in order, each with the case the path established for it:
+    a code point (found equal to it), 'other' (only inequalities), 'end' (the iterator was exhausted), None (never inspected)"""
+    out = []
+    br = branches_of(eff)
+    for e in eff:
+        if e[0].startswith('<') or len(e) < 5 or e[4] is None or e[0].split('::')[-1] != 'next':
+            continue
+        item = e[4]
+        mine = [(v, t) for v, t in br if has_subterm(v, item)]
+        disc = [t for v, t in mine if v == ('app', 'discriminant', (item,))]
+        if disc and disc[0] != C(1):
+            out.append(('end', item))
+            continue
+        case, it_ = char_case([(v, t) for v, t in mine if v != ('app', 'discriminant', (item,))])
+        out.append((case, it_ if it_ is not None else P_SOME(item)))
+    return out
+
+
+def r61_merged(ctx, prog, f):
+    """escape handling written inside the string scanner itself (no separate parse_escape_sequence): the paths of one scanner iteration
+    that start with a backslash are classified by the second character taken"""
+    def hook(it, fn, t, args):
+        c = t['callee']
+        if c['name'] == 'new' and 'String' in c['def']:
+            return SYM('result')
+        return None
+    ps = Interp(prog, hook=hook, loop_bound=0, record_backedge=True).paths(f, [SYM('iter')])
+    table = {}
+    for ret, eff in ps:
+        items = item_cases(eff)
+        if len(items) < 1 or items[0][0] != BS:
+            continue
+        key = items[1][0] if len(items) > 1 else '?'
+        pushes = [e[2] for e in eff if not e[0].startswith('<') and e[0].split('::')[-1] == 'push']
+        if isinstance(key, int) and len(items) > 1:
+            pushes = [tuple(subst(a, items[1][1], C(chr(key))) for a in p_) for p_ in pushes]
+        table.setdefault(key, []).append((ret, pushes))
+
+    def is_err(r):
+        return is_adt(r, 'result::Result', 'Err') and is_adt(r[4][0], 'error::EvalexprError', 'IllegalEscapeSequence')
+
+    def appended(k, ch):
+        return len(table.get(k, [])) == 1 and table[k][0][0][0] == 'backedge' and table[k][0][1] == [(SYM('result'), C(ch))]
+    ctx.check(appended(Q, '"'), 'R6.1', 'escape:quote', 'quote', '`\\"` denotes `"` (found %s)' % [(fmt(r)[:40], [[fmt(a) for a in p_] for p_ in ps_]) for r, ps_ in table.get(Q, [])], span=f.span)
+    ctx.check(appended(BS, '\\'), 'R6.1', 'escape:backslash', 'backslash', '`\\\\` denotes `\\` (found %s)' % [(fmt(r)[:40], [[fmt(a) for a in p_] for p_ in ps_]) for r, ps_ in table.get(BS, [])], span=f.span)
+    ctx.check(bool(table.get('other')) and all(is_err(r) and not p_ for r, p_ in table['other']), 'R6.1', 'escape:other', 'other', 'any other escaped character is IllegalEscapeSequence', span=f.span)
+    ctx.check(bool(table.get('end')) and all(is_err(r) and not p_ for r, p_ in table['end']), 'R6.1', 'escape:end', 'end', 'a backslash at the end of input is IllegalEscapeSequence', span=f.span)
+    extra = sorted(str(k) for k in table if k not in (Q, BS, 'other', 'end'))
+    ctx.check(not extra, 'R6.1', 'escape:table', 'extra', 'exactly two escapes are accepted (additional accepted escape characters: %s)' % extra, span=f.span)
+    return table
+
+
 def r61(ctx, prog):
     f = prog.fn('token::parse_escape_sequence')
     if f is None:
-        ctx.unrecognised('R6.1', 'parse_escape_sequence', 'missing', 'not found')
+        g = prog.fn('token::parse_string_literal')
+        if g is None:
+            ctx.unrecognised('R6.1', 'parse_escape_sequence', 'missing', 'neither parse_escape_sequence nor parse_string_literal found')
+            return
+        r61_merged(ctx, prog, g)
         return
     ps = Interp(prog).paths(f, [SYM('iter')])
     table = {}
@@ -131,6 +188,9 @@ def r62(ctx, prog):
     # backslash
     bs = seen.get(BS, [])
     good = len(bs) == 2 and any(r[0][0] == 'backedge' and r[1] == [(SYM('result'), SYM('escaped_char'))] for r in bs) and any(r[0] == ERR(SYM('escape_error')) and not r[1] for r in bs)
+    if not good and prog.fn('token::parse_escape_sequence') is None:
+        # the escape is handled inside the scanner: R6.1 (merged form) decides those paths; here only that a backslash never ends the literal
+        good = bool(bs) and all(r[0][0] == 'backedge' or is_adt(r[0], 'result::Result', 'Err') for r in bs)
     ctx.check(good, 'R6.2', 'string:escape', 'escape', '`\\` delegates to parse_escape_sequence: its character is appended, its error returned (%s)' % [(fmt(x[0]), [[fmt(a) for a in p] for p in x[1]]) for x in bs], span=f.span)
     # any other char pushed unchanged
     ot = seen.get('other', [])
@@ -147,32 +207,32 @@ def r62(ctx, prog):
     if g is not None:
         names |= {t['callee']['name'] for _, t in g.calls() if t['callee'].get('local')}
     ctx.check(not (names & {'try_skip_comment', 'char_to_partial_token'}), 'R6.2', 'string:no-comment-no-operator', 'exclusion', 'comment markers and operator characters are not recognised inside a string literal (local callees of the scanner: %s)' % sorted(names), span=f.span)
-    # in str_to_partial_tokens the quote test dominates both recognisers
+    # in str_to_partial_tokens a `"` goes to the string scanner and to nothing else; every other character never reaches it
     s = prog.fn('token::str_to_partial_tokens')
     if s is None:
         ctx.unrecognised('R6.2', 'str_to_partial_tokens', 'missing', 'not found')
         return
-    qsw = None
-    for b in s.live_blocks():
-        t = s.term(b)
-        if t['k'] == 'switch':
-            for st in s.stmts(b):
-                if st['k'] == 'assign' and st['rv']['k'] == 'binop' and st['rv']['op'] == 'Eq':
-                    from mirlib import const_value
-                    if const_value(st['rv']['b']) == '"' or const_value(st['rv']['a']) == '"':
-                        false_t = [tg for v, tg in t['targets'] if v == 0][0]
-                        qsw = (b, false_t, t['otherwise'])
-    if qsw is None:
-        ctx.unrecognised('R6.2', 'str_to_partial_tokens:quote-test', 'shape', 'comparison of the current character with `"` not found', span=s.span)
+    from rules.c07 import char_paths
+    try:
+        paths = char_paths(prog, s)
+    except Budget:
+        ctx.unrecognised('R6.2', 'str_to_partial_tokens:quote-test', 'budget', 'too complex', span=s.span)
         return
-    b, ffalse, ftrue = qsw
     okk = True
-    for cb, t in s.calls():
-        if t['callee'].get('local') and t['callee']['name'] in ('try_skip_comment', 'char_to_partial_token'):
-            okk = okk and s.edge_dominates((b, ffalse), cb)
-        if t['callee'].get('local') and t['callee']['name'] == 'parse_string_literal':
-            okk = okk and s.edge_dominates((b, ftrue), cb)
-    ctx.check(okk, 'R6.2', 'str_to_partial_tokens:quote-first', 'dominance', 'the `"` test comes first: the string scanner runs on its true edge, comment skipping and operator recognition only on its false edge', span=s.term(b)['span'])
+    seen_q = 0
+    for ch, ret, eff in paths:
+        names = [e[0].split('::')[-1] for e in eff if not e[0].startswith('<')]
+        if ch == '"':
+            seen_q += 1
+            okk = okk and 'parse_string_literal' in names and 'try_skip_comment' not in names and 'char_to_partial_token' not in names
+            pushes = [e[2] for e in eff if not e[0].startswith('<') and e[0].split('::')[-1] == 'push' and len(e[2]) == 2]
+            if ret[0] == 'backedge':
+                okk = okk and len(pushes) == 1 and is_adt(pushes[0][1], 'token::PartialToken', 'Token') and is_adt(pushes[0][1][4][0], 'token::Token', 'String') and pushes[0][1][4][0][4] == (SYM('string_text'),)
+            else:
+                okk = okk and ret == ERR(SYM('string_error')) and not pushes
+        else:
+            okk = okk and 'parse_string_literal' not in names
+    ctx.check(okk and seen_q >= 2, 'R6.2', 'str_to_partial_tokens:quote-first', 'dominance', 'a `"` starts the string scanner, whose token is pushed as it is (its error returned), and neither comment skipping nor operator recognition sees it; no other character enters the scanner', span=s.span)
 
 
 ATTEMPTS = [('int', ('strip_prefix', 'from_hex_str', 'from_str::<', 'map_err')), ('float', ('parse::<<NumericTypes as value::numeric_types::EvalexprNumericTypes>::Float>(',)), ('bool', ('parse::<bool>(',))]
